@@ -745,8 +745,11 @@ func genHooked(r *rand.Rand, seqBase *int) Case {
 			case x < 88:
 				op.K = []string{"link", "mon", "link", "mon", "unlink", "demon"}[r.Intn(6)]
 			case x < 93 && i == 0:
-				op.K = []string{"unreg", "reg"}[r.Intn(2)]
-				op.Cap = r.Intn(3)
+				// a second registration opens the stale-record class (known finding): only on request
+				op.K = "unreg"
+				if knownTags["stale-record-notify"] && r.Intn(2) == 0 {
+					op.K, op.Cap, op.Notify = "reg", r.Intn(3), r.Intn(2) == 0
+				}
 			case x < 96:
 				op.K = "term"
 			default:
@@ -763,10 +766,46 @@ func genHooked(r *rand.Rand, seqBase *int) Case {
 	for k := r.Intn(40); k > 0; k-- {
 		c.Sched = append(c.Sched, r.Intn(n))
 	}
+	c.Tags = hookedTags(c)
 	return c
 }
 
+var knownTags = map[string]bool{}
+
+// input class of the known finding "stale-record-notify": more than one registration of the event
+func hookedTags(c Case) []string {
+	regs := 0
+	for _, p := range c.Progs {
+		for _, op := range p {
+			if op.K == "reg" {
+				regs++
+			}
+		}
+	}
+	if regs > 1 {
+		return []string{"stale-record-notify"}
+	}
+	return []string{}
+}
+
 func corpusHooked() []Case {
+	l := corpusHooked0()
+	for i := range l {
+		l[i].Tags = hookedTags(l[i])
+	}
+	if knownTags["stale-record-notify"] {
+		// subscriber loads the record; unregister; another producer registers; the subscription is counted
+		// on the old record, the unsubscribe on the new one: producer 2 is told "stop" without "start"
+		l = append(l, Case{Kind: "hooked", Tags: []string{"stale-record-notify"}, Progs: [][]Op{
+			{{A: 0, K: "reg", Notify: true}, {A: 0, K: "unreg"}},
+			{{A: 1, K: "link"}, {A: 1, K: "unlink"}},
+			{{A: 2, K: "reg", Notify: true}}},
+			Sched: []int{0, 1, 0, 2, 1, 1, 1, 1}})
+	}
+	return l
+}
+
+func corpusHooked0() []Case {
 	return []Case{
 		// the window of 49b95f1: subscriber arrives while a publisher is between table load and push
 		{Kind: "hooked", Tags: []string{}, Progs: [][]Op{
@@ -893,6 +932,44 @@ func stress(rounds int, r *rand.Rand, o *util.Out) {
 	}
 }
 
+// the empty token must never be accepted, also not while the event is being registered
+func stressZeroToken(iter int, o *util.Out) {
+	wd := newWorld(2, 1)
+	name := wd.names[0]
+	stop := make(chan struct{})
+	accepted := 0
+	d1 := goDo(wd.pids[0], func(w *worker) error {
+		for i := 0; i < iter; i++ {
+			w.RegisterEvent(name, gen.EventOptions{})
+			w.UnregisterEvent(name)
+		}
+		close(stop)
+		return nil
+	})
+	d2 := goDo(wd.pids[1], func(w *worker) error {
+		for {
+			select {
+			case <-stop:
+				return nil
+			default:
+			}
+			if err := w.SendEvent(name, gen.Ref{}, pub{From: 1, Seq: 1}); err == nil {
+				accepted++
+			}
+		}
+	})
+	<-d1
+	<-d2
+	wd.shutdown()
+	o.Stats["zero-token-registrations"] += iter
+	o.Stats["runs"]++
+	if accepted > 0 {
+		idx := o.Add("stress", Case{Kind: "stress", Tags: []string{}})
+		o.Monitor = append(o.Monitor, util.MonitorFail{Case: idx, Tags: []string{},
+			What: fmt.Sprintf("SendEvent with the empty token was accepted %d times while the event was being registered (%d registrations)", accepted, iter)})
+	}
+}
+
 func head(l []pub, n int) []pub {
 	if len(l) > n {
 		return l[:n]
@@ -912,7 +989,13 @@ func main() {
 	n := fs.Int("n", 100, "number of cases")
 	outp := fs.String("out", "", "output file")
 	replay := fs.String("replay", "", "replay file written by bin/check")
+	known := fs.String("known", "", "comma separated tags of known findings whose input classes are generated")
 	fs.Parse(os.Args[2:])
+	for _, t := range strings.Split(*known, ",") {
+		if t != "" {
+			knownTags[t] = true
+		}
+	}
 	o := util.NewOut("event")
 	startNode()
 	defer node.StopForce()
@@ -960,6 +1043,7 @@ func main() {
 			emitHooked(rp.Case)
 		default:
 			stress(*n, util.Rng(3), o)
+			stressZeroToken(*n*100, o)
 		}
 		o.Write(*outp)
 		return
@@ -985,6 +1069,7 @@ func main() {
 		}
 	case "stress":
 		stress(*n, util.Rng(3), o)
+		stressZeroToken(*n*100, o)
 	default:
 		fmt.Println("unknown sub-command", sub)
 		os.Exit(2)
